@@ -12,6 +12,7 @@ from __future__ import annotations
 import ast
 
 from sa import mutate as M
+from sa import pattern as PT
 from sa.ctx import Ctx
 from sa.loader import AnalysisError, call_name, norm, own_nodes, parent
 from sa.ranges import has, has_bound, refusal_constraints
@@ -73,9 +74,12 @@ def rule_low_s(ctx: Ctx, rep: Report) -> None:
     rule = "C02.low_s"
     sr = ctx.func(f"{D}._sign_recoverable_")
     g = ctx.cfg(sr)
-    flips = [n for n in own_nodes(sr.node) if isinstance(n, ast.Assign) and norm(n.targets[0]) == "s" and norm(n.value) in ("ec.n - s", "-s % ec.n")]
-    kid = [n for n in own_nodes(sr.node) if isinstance(n, ast.AugAssign) and norm(n.target) == "key_id" and isinstance(n.op, ast.BitXor)]
-    okf = bool(flips) and {("lower_s", True), ("s > ec.n // 2", True)} <= set(g.facts_at_ast(flips[0].value))
+    ml: dict[str, str] = {}
+    fl = PT.find(sr.node, "$s = ec.n - $s", ml) or PT.find(sr.node, "$s = -$s % ec.n", ml)
+    flips = [fl] if fl is not None else []
+    s_ = ml.get("s", "s")
+    kid = [n for n in own_nodes(sr.node) if isinstance(n, ast.AugAssign) and isinstance(n.target, ast.Name) and isinstance(n.op, ast.BitXor)]
+    okf = bool(flips) and PT.fact(g.facts_at_ast(flips[0].value), "lower_s") and (PT.fact(g.facts_at_ast(flips[0].value), f"{s_} > ec.n // 2") or PT.fact(g.facts_at_ast(flips[0].value), f"ec.n // 2 < {s_}"))
     rep.ob(rule, "sign:flip_iff_high", okf, sr.where(), "s := n - s exactly when lower_s and s > n // 2" if okf else "the low-s flip is not under `lower_s and s > n // 2`")
     okk = bool(kid) and bool(flips) and isinstance(parent(kid[0]), ast.If) and parent(kid[0]) is parent(flips[0]) and kid[0] in parent(kid[0]).body \
         and flips[0] in parent(kid[0]).body and ctx.fold(kid[0].value, sr.module) == 1
@@ -86,9 +90,9 @@ def rule_low_s(ctx: Ctx, rep: Report) -> None:
         hit = [n for t, pol, n in ctx.refusals(fi) if norm(t) == "s > ec.n // 2" and pol and any(x == "lower_s" and p for x, p in gg.facts()[n.id])]
         rep.ob(rule, f"{fi.name}:refuses_high_s", bool(hit), fi.where(), "refuses s > n // 2 under lower_s")
     # key id composition
-    kidef = [n for n in own_nodes(sr.node) if isinstance(n, ast.Assign) and norm(n.targets[0]) == "key_id"]
-    rep.ob(rule, "key_id:definition", bool(kidef) and norm(kidef[0].value) in ("2 * (x_K // ec.n) + (K[1] & 1)", "2 * (x_K // ec.n) + K[1] % 2"), sr.where(),
-           f"key_id = {norm(kidef[0].value) if kidef else None}")
+    mk: dict[str, str] = {"kid": norm(kid[0].target)} if kid else {}
+    kd = PT.find(sr.node, "$kid = 2 * ($xk // ec.n) + ($K[1] & 1)", mk) or PT.find(sr.node, "$kid = 2 * ($xk // ec.n) + $K[1] % 2", mk)
+    rep.ob(rule, "key_id:definition", kd is not None, sr.where(kd), "key_id = 2 * (x overflowed n) + (y is odd), the variable the flip toggles")
 
 
 def rule_bool(ctx: Ctx, rep: Report) -> None:
@@ -106,17 +110,17 @@ def rule_der(ctx: Ctx, rep: Report) -> None:
     rep.ob(rule, "parse:compound_marker", has(cs, "marker", "!=", b"\x30") is not None, p.where(), "first byte must be 0x30")
     rep.ob(rule, "parse:inner_consumed", any(c.op == "!=" and "sig_data_substream.read(1)" in c.subject and c.value == b"" for c in cs), p.where(), "the inner sequence is fully consumed")
     tr = [n for t, pol, n in ctx.refusals(p) if norm(t) == "stream.read(1) != b''" and pol]
-    okt = bool(tr) and any(t == "strict" and pl for t, pl in g.facts()[tr[0].id])
+    okt = any(PT.fact(g.facts()[h.id], "strict") for h in tr)
     rep.ob(rule, "parse:no_trailing(strict)", okt, p.where(), "strict: nothing may follow the sequence")
     ds = ctx.func(f"{D}._deserialize_scalar")
     gd = ctx.cfg(ds)
     cd = refusal_constraints(ctx, ds)
     rep.ob(rule, "scalar:marker", has(cd, "marker", "!=", b"\x02") is not None, ds.where(), "each scalar starts with 0x02")
     pad = [n for t, pol, n in ctx.refusals(ds) if "scalar_bytes[1] < 128" in norm(t) and pol]
-    okp = bool(pad) and {("strict", True), ("len(scalar_bytes) > 1", True), ("scalar_bytes[0] == 0", True)} <= set(gd.facts()[pad[0].id])
+    okp = any(PT.fact(gd.facts()[h.id], "strict") and PT.fact(gd.facts()[h.id], "len(scalar_bytes) > 1") and PT.fact(gd.facts()[h.id], "scalar_bytes[0] == 0") for h in pad)
     rep.ob(rule, "scalar:no_superfluous_zero(strict)", okp, ds.where(), "a leading 0x00 only before a byte >= 0x80")
     neg = [n for t, pol, n in ctx.refusals(ds) if norm(t) == "scalar_bytes[0] >= 128" and pol]
-    okn = bool(neg) and any(t == "strict" and pl for t, pl in gd.facts()[neg[0].id])
+    okn = any(PT.fact(gd.facts()[h.id], "strict") for h in neg)
     rep.ob(rule, "scalar:no_negative(strict)", okn, ds.where(), "first byte < 0x80")
     # zero-size refused through _parse_der_value (forbid_zero_size=True), and its runtime error converted
     pv = ctx.func(f"{D}._parse_der_value")
